@@ -2061,10 +2061,11 @@ impl<'a, const C: usize, const R: usize, T: 'a + Copy + std::fmt::Debug> Layout<
         let current_layer = self.current_layer();
         if self.trans_resolution_behavior_v2 {
             // heapless `collect` panics when the iterator yields more than the capacity;
-            // with more than MAX_ACTIVE_LAYERS held layers keep the most recently activated ones.
+            // with too many held layers keep the most recently activated ones, leaving room for
+            // the default layer and the first layer which must always be consulted.
             let mut v = self
                 .active_held_layers()
-                .take(MAX_ACTIVE_LAYERS)
+                .take(MAX_ACTIVE_LAYERS - 2)
                 .collect::<LayerStack>();
             let _ = v.push(self.default_layer as u16);
             if self.delegate_to_first_layer && current_layer != 0 && self.default_layer != 0 {
